@@ -10,7 +10,7 @@ Viols(e) ==
   ELSE (IF ~e.obs.issued THEN {"honest-enrolment-not-answered"} ELSE {}) \cup
        (IF e.obs.issued /\ ~e.obs.refused THEN {"node-accepts-substituted-response"} ELSE {})
 TInit == l = 1 /\ cnt = [lines |-> 0, nontrivial |-> 0, drift |-> 0, viol |-> 0, unc |-> 0]
-       /\ cfg = [flow |-> "operator", backend |-> "inmem", sw |-> FALSE, state |-> "none", params |-> FALSE, subst |-> "none"]
+       /\ cfg = [flow |-> "operator", backend |-> "inmem", sw |-> FALSE, state |-> "none", params |-> FALSE, subst |-> "none", roots |-> "fresh"]
        /\ pc = "done" /\ srv = [token |-> FALSE, mid |-> FALSE, record |-> FALSE] /\ resp = "none" /\ nodeHas = "none"
 Step ==
   /\ l <= Len(TraceLog)
